@@ -65,7 +65,7 @@ Ints3 == {I(0), I(3), I(0 - 2)}
 HelperGCases ==
     F1("map", {"g", "inc"}, ListArgs) \cup F1("filter", {"isPos", "isBig"}, ListArgs)
     \cup F1("reduce", {"h2"}, ListArgs) \cup FV("reduce", {"h2"}, {I(9)}, ListArgs)
-    \cup F1("into", {"h2"}, ListArgs \cup {[t |-> "u", l |-> <<I(4), I(6)>>]})
+    \cup F1("into", {"h2"}, ListArgs \cup {[t |-> "u", l |-> <<I(4), I(6)>>], DA})
     \cup F0("flatten", Nested) \cup F1("flatmap", {"dup"}, ListArgs)
     \cup F0("invert", {Bv(TRUE), Bv(FALSE), I(0), I(2), Nv}) \cup F1("invert", {"isPos"}, Ints3)
     \cup {[s |-> HelperG(h, <<PF("isPos"), PF("isBig")>>), x |-> x, o |-> EmptyD] : h \in {"all", "any"}, x \in {I(0), I(1), I(2)}}
